@@ -109,3 +109,21 @@ package sm3
 //@   modifies nothing
 //@   loop 1 invariant 0 <= i && i <= limit
 //@   loop 1 decreases limit - i
+
+// the digest of the ghost message: big-endian words of the fold over M || pad(L)
+//@ pred sm3words(d, M, L) := SM3F(SM3IV(), CAT(M, L, SM3PADARR(L), 0, SM3T(L) + 8), 0, (L + SM3T(L) + 8) / 64)
+
+//@ func (*digest).checkSum property C01
+//@   requires dinv(d) && ghost(dlen, d) < 2305843009213693952
+//@   let M := ghost(dmsg, d)
+//@   let L := ghost(dlen, d)
+//@   let W := SM3F(SM3IV(), CAT(M, L, SM3PADARR(L), 0, SM3T(L) + 8), 0, (L + SM3T(L) + 8) / 64)
+//@   ensures forall i :: 0 <= i && i < 8 ==> result[4 * i] * 16777216 + result[4 * i + 1] * 65536 + result[4 * i + 2] * 256 + result[4 * i + 3] == W[i]
+//@   modifies d.h, d.x, d.nx, d.len, ghost(dmsg, d), ghost(dlen, d)
+//@   assert before call Write#1: t == SM3T(L) && len(padlen) == SM3T(L) + 8 && forall j :: 0 <= j && j < SM3T(L) + 8 ==> padlen[j] == SM3PADARR(L)[j]
+//@   apply after call Write#1: sm3_ext(SM3IV(), ghost(dmsg, d), 0, CAT(M, L, SM3PADARR(L), 0, SM3T(L) + 8), 0, (L + SM3T(L) + 8) / 64)
+//@   assert after call Write#1: d.nx == 0 && ghost(dlen, d) == L + SM3T(L) + 8 && (L + SM3T(L) + 8) % 64 == 0
+//@   assert after call Write#1: 64 * ((L + SM3T(L) + 8) / 64) == L + SM3T(L) + 8
+//@   assert after call Write#1: forall j :: 0 <= j && j < L + SM3T(L) + 8 ==> ghost(dmsg, d)[j] == CAT(M, L, SM3PADARR(L), 0, SM3T(L) + 8)[j]
+//@   assert after call Write#1: forall j :: 0 <= j && j < 64 * ((L + SM3T(L) + 8) / 64) ==> ghost(dmsg, d)[j] == CAT(M, L, SM3PADARR(L), 0, SM3T(L) + 8)[j]
+//@   assert after call Write#1: forall i :: 0 <= i && i < 8 ==> d.h[i] == W[i]
